@@ -11,7 +11,7 @@ def plan(tier):
              "extra length tuples (1,17),(17,1),(16,3),(3,16),(1,1,17),(17,1,1),(1,17,1),(2,16,1)")
     return {
         "harnesses": [h],
-        "runs": [(h, ["--tier", tier], NCPU)],
+        "runs": [(h, ["--tier", tier], NCPU, 3 * 3600 if T else 1800)],  # generous: ~6.5 min (T) / ~20 s (Q) on 16 idle cores
         "states_key": "cases", "transitions_key": "calls", "traces_key": "calls", "distinct_key": "cases",
         "rule": "every ordered tuple of non-empty sorted sequences over keys {0,1,2} (%s) x comparator {std::less on ascending, "
                 "std::greater on descending inputs} x EVERY rank 0..N (multisequence_partition) / 0..N-1 (multisequence_selection); "
